@@ -252,6 +252,21 @@ def allowed_verdicts(h, last, loss, J, D, R, dtype):
 
 # ============================================================================ recording wrappers
 
+def strategy_attrs(st) -> dict:
+    """public state of a strategy object (must not be changed by `update`: all mutable state lives in pg)"""
+    out = {}
+    for k, v in vars(st).items():
+        if isinstance(v, dict):
+            out[k] = dict(v)
+        elif isinstance(v, (int, float, bool, str, type(None))):
+            out[k] = v
+    return out
+
+
+def diff_attrs(a: dict, b: dict) -> list:
+    return sorted(k for k in set(a) | set(b) if a.get(k, "<absent>") != b.get(k, "<absent>"))
+
+
 class RecStrategy:
     """user-supplied strategy object: records what `update` is called with and what it does to pg"""
 
@@ -268,9 +283,16 @@ class RecStrategy:
     def update(self, pg, last, loss, J, D, R, *args, **kwargs):
         ev = {"pg_before": pg_state(pg), "hyper": pg_hyper(pg, self.inner), "last": last.detach().clone(),
               "loss": loss.detach().clone(), "J": J.detach().clone(), "D": D.detach().clone(), "R": R.detach().clone(),
-              "params": [raw(p) for p in self.module.parameters()] if self.module is not None else None}
+              "params": [raw(p) for p in self.module.parameters()] if self.module is not None else None,
+              "refs": (J, D, R, last, loss), "pg_full_before": {k: v for k, v in pg.items() if k != "params"}}
+        attrs = strategy_attrs(self.inner)
         self.inner.update(pg, last=last, loss=loss, J=J, D=D, R=R)
         ev["pg_after"] = pg_state(pg)
+        ev["pg_full_after"] = {k: v for k, v in pg.items() if k != "params"}
+        ev["strategy_attrs_changed"] = diff_attrs(attrs, strategy_attrs(self.inner))
+        ev["args_changed"] = [nm for nm, ref, cl in zip("J D R last loss".split(), ev["refs"],
+                                                        (ev["J"], ev["D"], ev["R"], ev["last"], ev["loss"]))
+                              if not torch.equal(torch.Tensor.as_subclass(ref.detach(), torch.Tensor), cl)]
         self.log.append(ev)
 
 
@@ -325,6 +347,7 @@ class RecSolver:
             D = D * act[1]
         ev["raised"] = False
         ev["D"] = D.detach().clone()
+        ev["D_ref"] = D
         return D
 
 
